@@ -40,9 +40,10 @@ def edgeHits (o d : V2 α) : List (V2 α) → Nat → List (α × Nat)
 
 def insertByT (x : α × Nat) : List (α × Nat) → List (α × Nat)
   | [] => [x]
-  | a :: r => if x.1 < a.1 then x :: a :: r else a :: insertByT x r
+  | a :: r => if a.1 < x.1 then a :: insertByT x r else x :: a :: r
 
-/-- stable sort by parameter -/
+/-- stable sort by parameter (`sort_by` is stable: equal parameters keep the order in which the
+    traversal produced them, which decides the edge index that survives the merge of duplicates) -/
 def sortByT (l : List (α × Nat)) : List (α × Nat) := l.foldr insertByT []
 
 /-- `dedup_by(|a, b| (a.0 - b.0).abs() < tol)` -/
@@ -103,4 +104,78 @@ def castRaySlab (big : α) (mins maxs o d : V2 α) : Bool :=
   let s2 := slabAxis big s1 mins.y maxs.y o.y d.y
   s2.hit
 
+end
+
+/-! ### the bounding-volume traversal of `polyline_intersections`
+
+  parry's QBVH is modelled as a tree whose inner nodes carry one axis-aligned box per child (the
+  `SimdAabb` handed to `RayVisitor::visit`, up to four lanes in parry, any number here) and whose
+  leaves carry an edge index.  `visit` keeps the children whose box passes the test
+  (`SimdVisitStatus::MaybeContinue(mask)`) and collects the leaf data of those lanes, in the order
+  of parry's stack-based depth-first traversal (leaf lanes in lane order, inner lanes last first):
+  the order decides which of two merged duplicates keeps its edge index. -/
+
+mutual
+inductive BvhTree (α : Type) where
+  | leaf (edge : Nat) : BvhTree α
+  | node (children : BvhForest α) : BvhTree α
+inductive BvhForest (α : Type) where
+  | nil : BvhForest α
+  | cons (mins maxs : V2 α) (child : BvhTree α) (rest : BvhForest α) : BvhForest α
+end
+
+mutual
+def BvhTree.leaves {α : Type} : BvhTree α → List Nat
+  | .leaf i => [i]
+  | .node cs => cs.leaves
+def BvhForest.leaves {α : Type} : BvhForest α → List Nat
+  | .nil => []
+  | .cons _ _ t r => t.leaves ++ r.leaves
+end
+
+mutual
+/-- depth-first traversal with pruning: the edges collected by `RayVisitor` -/
+def BvhTree.visit {α : Type} (test : V2 α → V2 α → Bool) : BvhTree α → List Nat
+  | .leaf i => [i]
+  | .node cs => cs.visit test
+def BvhForest.visit {α : Type} (test : V2 α → V2 α → Bool) : BvhForest α → List Nat
+  | .nil => []
+  | .cons mn mx (.leaf i) r => (if test mn mx then [i] else []) ++ r.visit test
+  -- inner lanes are pushed on a stack in lane order and popped last first
+  | .cons mn mx (.node cs) r => r.visit test ++ (if test mn mx then cs.visit test else [])
+end
+
+section
+variable {α : Type} [Add α] [Sub α] [Mul α] [Div α] [Neg α] [LT α] [LE α]
+  [DecidableLT α] [DecidableLE α] [OfNat α 0] [OfNat α 1] [OfNat α 2] [Scalar α]
+
+/-- the hit of the line with edge `i` of the polyline, if any -/
+def edgeHit (verts : List (V2 α)) (o d : V2 α) (i : Nat) : Option (α × Nat) :=
+  match rayEdge o d (verts.getD i ⟨0, 0⟩) (verts.getD (i + 1) ⟨0, 0⟩) with
+  | some t => some (t, i)
+  | none => none
+
+/-- `polyline_intersections` before sorting: per-edge test of the candidates the traversal collected -/
+def traversalHits (big : α) (verts : List (V2 α)) (o d : V2 α) (tree : BvhTree α) : List (α × Nat) :=
+  (tree.visit (fun mn mx => castRaySlab big mn mx o d)).filterMap (edgeHit verts o d)
+
+def inBoxB (mn mx p : V2 α) : Bool :=
+  decide (mn.x ≤ p.x) && decide (p.x ≤ mx.x) && decide (mn.y ≤ p.y) && decide (p.y ≤ mx.y)
+
+mutual
+/-- the invariant assumed of parry's QBVH, as a computable test (evaluated on the real tree on every
+    run): the box of every child contains both ends of every edge stored below it -/
+def BvhTree.boxedB (verts : List (V2 α)) : BvhTree α → Bool
+  | .leaf _ => true
+  | .node cs => cs.boxedB verts
+def BvhForest.boxedB (verts : List (V2 α)) : BvhForest α → Bool
+  | .nil => true
+  | .cons mn mx t r =>
+    t.leaves.all (fun i => inBoxB mn mx (verts.getD i ⟨0, 0⟩) && inBoxB mn mx (verts.getD (i + 1) ⟨0, 0⟩))
+      && t.boxedB verts && r.boxedB verts
+end
+
+/-- `polyline_intersections` -/
+def polylineIntersections (big : α) (verts : List (V2 α)) (o d : V2 α) (tree : BvhTree α) : List (α × Nat) :=
+  dedupByT dedupTolT (sortByT (traversalHits big verts o d tree))
 end
